@@ -24,6 +24,14 @@ THEOREMS = [
     'C05_hidden_root_refuted : exists st, display st = DNone /\\ root_leaf st .. = Some (lay, _) /\\ l_size lay = 0 /\\ l_padding lay = 3 /\\ l_border lay = 2 /\\ l_margin lay = 5 /\\ l_scrollbar_size lay = 4',
     'C05_hidden_blind_engine : HiddenBlind algo -> hsim k k\' -> plain f k i = plain f k\' i /\\ orel (memo f (fresh k) i) (memo f (fresh k\') i)',
     'C05_grid_estimate_ignores_hidden : Forall2 (same_but Hidden (fun _ _ => True)) cs cs\' -> grid_placement_run ec er fl cs = grid_placement_run ec er fl cs\'',
+    'C05_flex_items_ignore_hidden : agree_except (s_hidden bgm) f f\' cs -> flex_generate_items f position bgm build cs = flex_generate_items f\' position bgm build cs   '
+    '[flex_generate_items is TRANSLATED from generate_anonymous_flex_items on every run]',
+    'C05_block_items_ignore_hidden : (agree_except (s_hidden bgm) f f\' cs -> block_generate_items f .. build cs = block_generate_items f\' .. build cs) /\\ '
+    'block_generate_items f .. build (filter visible cs) = block_generate_items f .. build cs /\\ normal form',
+    'C05_grid_items_ignore_hidden, C05_model_filters_are_source (Model/Block.v generate_item_list and Model/Placement.v estimate_children / in_flow_children are the translated filters)',
+    'C05_block_algorithm_hidden_blind : HiddenBlind bs_is_none (block_alg pre abs_child)   [block_alg = compute_inner as a resumption, Model/BlockAlg.v]',
+    'C05_block_algorithm_sets_zero_on_hidden : AbsChildLocal abs_child -> SetsZeroOnHidden bs_is_none (block_alg pre abs_child) b_zeroish',
+    'C05_block_engine_hidden_invisible : the conclusion of C05_hidden_blind_engine for engines of block containers and leaves, no premise on the algorithms',
 ]
 
 
@@ -37,8 +45,11 @@ def finding(oracle_class):
 def run(rep, tier, seed, replay=None):
     res, changed = proof_stage(rep, 'C05', extra_trusted=[
         'engine skeleton Model/Engine.v is hand-written (tied by the dirty-flag correspondence incl. hide, and trace validation of WF / H1)',
-        'interface hypotheses on the real algorithms: WF, H1 (trace-validated on every run), HiddenBlind and SetsZeroOnHidden '
-        '(validated only through the metamorphic oracle on the implementation, not proved for flex / block / the grid tail)',
+        'interface hypotheses on the real algorithms: WF, H1 (trace-validated on every run); HiddenBlind and SetsZeroOnHidden are PROVED for the block '
+        'algorithm as modelled in Model/BlockAlg.v (compute_inner as a resumption assembled from the translated item pipeline and the K-validated '
+        'kernel of Model/Block.v) and for the item generation of all three algorithms (translated pipelines); for the flex and grid TAILS they are '
+        'validated only through the metamorphic oracle on the implementation',
+        'translator/gen_filters.py (item-generation pipelines, box_generation_mode, the hidden-children loop of compute_inner); fails closed',
         'grid placement model Model/Placement.v: hand transcription of placement.rs / implicit_grid.rs / the child filters of grid/mod.rs '
         '(tied by K + fingerprints); tables regenerated from the source',
         'Model/Root.v (compute_root_layout of a childless root; tied by the C19 correspondence) for C05_hidden_root_refuted',
@@ -66,6 +77,9 @@ def run(rep, tier, seed, replay=None):
         bad = H.placement_k(rep, 'C05', binp, seed + 505, 12000 if escalate else 2500, kind=1)
     rep.cov['engine_histories_distinct'] = eng_distinct
     rep.cov['samples'] = rep.cov.get('samples', []) + eng_samples
+    # ---- K3: block containers with absolute / hidden children interleaved, vs the block model the new theorems are about
+    if not replay:
+        H.block_k(rep, 'C05', binp, seed + 550, 2400 if escalate else 600, p_absolute=0, p_hidden=300)
     for t in THEOREMS:
         rep.cov['samples'].append({'theorem': t})
     # ---- search: metamorphic oracle on the implementation
